@@ -158,6 +158,10 @@ def replay(case):
 
 WORDS = list(COLORS) + ["on_" + c for c in COLORS] + list(STYLES)
 BADWORDS = ["notastyle", "on_nope", "RED", "on_BLUE", "Bold", 3, None, "", "on_", "fg"]
+# a valid name with something stuck to it is an unknown name (a line feed behind it in particular: `$` in a pattern would let it pass)
+DECORATED = [pre + w + post for w in ("red", "on_blue", "bold", "on_gray", "gray", "invert")
+             for pre, post in (("", "\n"), ("\n", ""), ("", " "), (" ", ""), ("", "\r"), ("", "\t"), ("", "\x00"), ("", "\n\n"), ("on_", ""), ("", "_"))
+             if (pre + w + post) not in WORDS]
 KWPOOL = [{}, {"fg": "red"}, {"fg": 31}, {"bg": "blue"}, {"bg": 44}, {"bold": True}, {"bold": False}, {"fg": "green", "bg": "red", "dark": True},
           {"style": "blue"}, {"style": "on_red"}, {"style": "underline"}, {"style": "nope"},
           {"fg": "notacolor"}, {"bg": "notacolor"}, {"fg": 99}, {"bg": 31}, {"fg": 41}, {"unknown": True}, {"fg": None}, {"fg": True},
@@ -179,6 +183,13 @@ def bounded(check, tier, seed):
                 if d:
                     case = dict(kind="parse", args=list(args), kwargs=kw, mistyped_style=d.startswith("MISTYPED-STYLE"))
                     s.fail("C14.parse_args", case, d, replay={"kind": "suite", "module": "props.C14", "case": dict(kind="parse", args=list(args), kwargs=kw)})
+    for w in DECORATED:
+        for args, kw in (((w,), {}), (("bold", w), {}), ((w, "red"), {}), ((), {"style": w}), ((), {"fg": w}), ((), {"bg": w})):
+            s.case(("decorated", repr(args), repr(kw)))
+            d = parse_case(args, kw)
+            if d:
+                case = dict(kind="parse", args=list(args), kwargs=kw, mistyped_style=False)
+                s.fail("C14.parse_args", case, d, replay={"kind": "suite", "module": "props.C14", "case": dict(kind="parse", args=list(args), kwargs=kw)})
     s.samples = [dict(args=["red", "bold"], kwargs={"bg": 44})]
     s.done()
     # application in every spelling, order and nesting
